@@ -240,7 +240,7 @@ Fixpoint enc_agree (e : enc) (p p' : pkt) {struct e} : Prop :=
   | EFillOpt r => vagree r U8 p p' /\ live_agree r p p'
   | EVbConst _ => True
   | EVbLen es => all es
-  | EIf c a b => cond_agree c p p' /\ all a /\ all b
+  | EIf c a b => cond_agree c p p' /\ (if eval_cond c p no_env then all a else all b)
   | EIfEmpty s a b => all s /\ all a /\ all b
   | EUserProps will =>
       if will then hasWill p' = hasWill p /\ wuprops p' = wuprops p else uprops p' = uprops p
@@ -286,8 +286,9 @@ Proof.
     intros x y E. apply (canon_valN U8) in E. rewrite E. reflexivity.
   - reflexivity.
   - rewrite !run_enc1_vblen. rewrite (IHl es H). reflexivity.
-  - destruct H as [Hc [Ha Hb]]. cbn [run_enc1]. rewrite !run_list_eq.
-    rewrite (eval_cond_agree c p p' no_env Hc). rewrite (IHl a Ha), (IHl b Hb). reflexivity.
+  - destruct H as [Hc Hab]. cbn [run_enc1]. rewrite !run_list_eq.
+    rewrite (eval_cond_agree c p p' no_env Hc).
+    destruct (eval_cond c p no_env); rewrite (IHl _ Hab); reflexivity.
   - destruct H as [Hs [Ha Hb]]. cbn [run_enc1]. rewrite !run_list_eq.
     rewrite (IHl s Hs), (IHl a Ha), (IHl b Hb). reflexivity.
   - cbn [run_enc1]. destruct will.
@@ -427,6 +428,7 @@ From MQ Require Import Model.Stream Proofs.StreamP.
 Definition roundtrip (k : kind) (p : pkt) : Prop :=
   exists body p',
     encode_pkt k p = Some (n2b (getN (M F_fixed) p) :: enc_vb (len body) ++ body)
+    /\ len body < 268435456
     /\ decode_frame (n2b (getN (M F_fixed) p)) body = Some (Some (k, p'), None)
     /\ snapshot k p' = snapshot k p
     /\ encode_pkt k p' = encode_pkt k p.
@@ -643,8 +645,9 @@ Proof.
     - apply section_agree_in; [apply connack_map_ok|vm_compute; reflexivity]. }
   assert (Hu : uprops p' = uprops p) by (unfold p'; rewrite uprops_section_result; reflexivity).
   clearbody p'.
-  split; [|split; [|split]].
+  split; [|split; [|split; [|split]]].
   - apply (encode_pkt_body KConnAck p connack_vh); try discriminate; [reflexivity|exact Ebody].
+  - unfold remaining_ok in Hsize. cbn [body_of] in Hsize. rewrite Ebody in Hsize. exact Hsize.
   - unfold decode_frame. rewrite Hfx. change (fresh_pkt (b2n (n2b 32))) with (KConnAck, fresh).
     cbv beta iota. rewrite Hdec. unfold body. cbn [encode enc_u8 app]. reflexivity.
   - apply agree_all_of in Hag. cbn in Hag. split_ands.
@@ -735,14 +738,16 @@ Proof. intros H. unfold unmarshal, unmarshal_steps. fold (mk_state fresh body 0 
 
 Lemma roundtrip_intro k p b body fresh p' :
   k <> KPingReq -> k <> KPingResp -> body_of k = Some b -> run_enc b p = Some body ->
+  remaining_ok k p ->
   fresh_pkt (b2n (n2b (getN (M F_fixed) p))) = (k, fresh) ->
   match body with [] => p' = fresh | _ => unmarshal k fresh body = UOk p' end ->
   snapshot k p' = snapshot k p ->
   (forall es, enc_of k = Some es -> encs_agree es p p') ->
   roundtrip k p.
 Proof.
-  intros H1 H2 Hb Hr Hf Hd Hs Ha. exists body, p'. split; [|split; [|split]].
+  intros H1 H2 Hb Hr Hsz Hf Hd Hs Ha. exists body, p'. split; [|split; [|split; [|split]]].
   - apply (encode_pkt_body k p b); assumption.
+  - unfold remaining_ok in Hsz. rewrite Hb, Hr in Hsz. exact Hsz.
   - unfold decode_frame. rewrite Hf. destruct body as [|x body]; [rewrite Hd; reflexivity|].
     rewrite Hd. reflexivity.
   - exact Hs.
@@ -1067,7 +1072,13 @@ Proof.
   - intros es Hes. injection Hes as <-.
     apply vagree_all_of in Hag. cbn [vagree_all refs_of map] in Hag. split_ands.
     unfold enc_disconnect, disconnect_vh, disconnect_body, disconnect_props, up.
-    cbn [app encs_agree enc_agree live_agree cond_agree]. repeat split; assumption.
+    cbn [app encs_agree enc_agree live_agree cond_agree].
+    repeat match goal with
+    | |- _ /\ _ => split
+    | |- True => exact I
+    | |- context [if ?c then _ else _] => destruct c
+    | _ => assumption
+    end.
 Qed.
 
 (* AUTH *)
@@ -1099,7 +1110,13 @@ Proof.
     apply vagree_all_of in Hag. unfold refs_of, auth_map in Hag.
     cbn [vagree_all map eref ewt fst snd] in Hag. split_ands.
     unfold enc_auth, auth_vh, auth_body, auth_props, up.
-    cbn [app encs_agree enc_agree live_agree cond_agree]. repeat split; assumption.
+    cbn [app encs_agree enc_agree live_agree cond_agree].
+    repeat match goal with
+    | |- _ /\ _ => split
+    | |- True => exact I
+    | |- context [if ?c then _ else _] => destruct c
+    | _ => assumption
+    end.
 Qed.
 
 (* ------------------------------------------------------------------ *)
@@ -1229,8 +1246,9 @@ Theorem ping_roundtrip k p : (k = KPingReq \/ k = KPingResp) ->
 Proof.
   intros Hk Hfx. exists [], (setf (M F_fixed) (VN (ctor_fixed k)) zero_pkt).
   assert (He : enc_of k = Some enc_ping) by (destruct Hk as [-> | ->]; reflexivity).
-  split; [|split; [|split]].
+  split; [|split; [|split; [|split]]].
   - unfold encode_pkt. rewrite He. apply ping_frame.
+  - reflexivity.
   - unfold decode_frame. rewrite Hfx. destruct Hk as [-> | ->]; reflexivity.
   - destruct Hk as [-> | ->]; reflexivity.
   - unfold encode_pkt. rewrite He, !ping_frame. rewrite Hfx. destruct Hk as [-> | ->]; reflexivity.
@@ -1615,7 +1633,13 @@ Proof.
     assert (Hpl : vagree (M F_payload) Bin p p').
     { match goal with H : vagree (M F_payload) Raw p p' |- _ => exact H end. }
     unfold enc_publish, publish_vh, publish_payload, publish_props, up.
-    cbn [app encs_agree enc_agree live_agree cond_agree]. repeat split; assumption.
+    cbn [app encs_agree enc_agree live_agree cond_agree].
+    repeat match goal with
+    | |- _ /\ _ => split
+    | |- True => exact I
+    | |- context [if ?c then _ else _] => destruct c
+    | _ => assumption
+    end.
 Qed.
 
 Lemma run_enc1_if c a b p : run_enc1 (EIf c a b) p =
@@ -1726,4 +1750,532 @@ Proof.
     rewrite (run_dec_cons _ _ _ _ D1), (run_dec_cons _ _ _ _ D2), (run_dec_cons _ _ _ _ D3),
             (run_dec_cons _ _ _ _ D4). reflexivity.
   - intros es Hes. injection Hes as <-. exact Ha.
+Qed.
+
+(* ------------------------------------------------------------------ *)
+(* CONNECT *)
+Definition will_fixed (flags : N) : N :=
+  toggle (setqos (ctor_fixed KPublish) (will_qos flags)) RETAIN (has flags WillRetain).
+
+Lemma getf_section_other r m will sm p acc :
+  forallb (fun e => negb (fref_eqb r (eref e))) m = true ->
+  getf r (section_result m will sm p acc) = getf r acc.
+Proof.
+  intros H. rewrite getf_section_result. apply getf_restore_other.
+  intros e Hin. rewrite forallb_forall in H. apply negb_true_iff. apply H. exact Hin.
+Qed.
+
+Lemma getf_will_init_M f a : getf (M f) (will_init a) = getf (M f) a.
+Proof. reflexivity. Qed.
+Lemma getf_will_init_W f a : getf (W f) (will_init a) =
+  upd no_vals F_fixed (VN (will_fixed (getN (M F_flags) a))) f.
+Proof. reflexivity. Qed.
+
+Lemma hasWill_will_init a : hasWill (will_init a) = true. Proof. reflexivity. Qed.
+
+Ltac getf_down :=
+  repeat first
+    [ rewrite getf_setf_same
+    | rewrite getf_setf_other by reflexivity
+    | rewrite getf_section_other by reflexivity
+    | rewrite getf_will_init_M ].
+
+Lemma restore_agree_ref m p acc r w : nodup_refs m = true ->
+  forallb (fun e => is_zero (ewt e) (getf (eref e) acc)) m = true ->
+  In (r, w) (refs_of m) ->
+  canon w (getf r (restore m p acc)) = canon w (getf r p).
+Proof.
+  intros Hnd Hz Hin. unfold refs_of in Hin. apply in_map_iff in Hin as [e [E Hin]].
+  injection E as <- <-. apply restore_agree; try assumption.
+  intros e' Hin'. rewrite forallb_forall in Hz. apply Hz. exact Hin'.
+Qed.
+
+(* an optional string guarded by a bit of the connect flags *)
+Lemma dif_bin_at mask r v acc d pos rest steps :
+  valid_val Bin v -> ref_live acc r -> valS (getf r acc) = [] ->
+  let c := has (getN (M F_flags) acc) mask in
+  at_pos d pos ((if c then encode Bin v else []) ++ rest) ->
+  exists steps',
+    run_dec1 (DIf (CHas (M F_flags) mask) [DGet r Bin]) (mk_state acc d pos steps) =
+      Run (mk_state (if c then setf r (canon Bin v) acc else acc) d
+                    (pos + length (if c then encode Bin v else [])) steps')
+    /\ at_pos d (pos + length (if c then encode Bin v else [])) rest.
+Proof.
+  intros Hv Hl Hz c Hat. rewrite dif_step.
+  change (eval_cond (CHas (M F_flags) mask) (dp (mk_state acc d pos steps)) (env_of (mk_state acc d pos steps))) with c.
+  destruct c.
+  - destruct (dget_at r Bin v acc d pos rest steps) as [D H]; try discriminate; try assumption.
+    { intros _. right. exact Hz. }
+    exists (S steps). split; [|exact H]. cbn [run_dec]. rewrite D. reflexivity.
+  - exists steps. cbn [length]. rewrite Nat.add_0_r. split; [reflexivity|exact Hat].
+Qed.
+
+Lemma connect_map_ok : forallb (entry_okb false) connect_map = true
+  /\ nodupb_N (map eid connect_map) = true /\ nodup_refs connect_map = true.
+Proof. vm_compute. repeat split. Qed.
+Lemma will_map_ok : forallb (entry_okb true) will_map = true
+  /\ nodupb_N (map eid will_map) = true /\ nodup_refs will_map = true.
+Proof. vm_compute. repeat split. Qed.
+
+(* the will block of the decoder *)
+Definition will_block (p a : pkt) : pkt :=
+  let a7 := will_init a in
+  let a8 := section_result will_map true NoSub p a7 in
+  let a9 := setf (W F_topicName) (canon Bin (getf (W F_topicName) p)) a8 in
+  let a10 := setf (M F_willPayload) (canon Bin (getf (M F_willPayload) p)) a9 in
+  setf (W F_payload) (VS (getS (M F_willPayload) a10)) a10.
+
+Definition will_bytes (p : pkt) : list byte :=
+  let P := section_bytes will_map true NoSub p in
+  enc_vb (len P) ++ P ++ encode Bin (getf (W F_topicName) p) ++ encode Bin (getf (M F_willPayload) p).
+
+Lemma dif_will_at p acc d pos rest steps :
+  hasWill p = true -> fields_valid (refs_of will_map) p -> Forall up_ok (wuprops p) ->
+  valid_val Bin (getf (W F_topicName) p) -> valid_val Bin (getf (M F_willPayload) p) ->
+  valS (getf (M F_willPayload) acc) = [] ->
+  len (section_bytes will_map true NoSub p) < 268435456 ->
+  let c := has (getN (M F_flags) acc) WillFlag in
+  at_pos d pos ((if c then will_bytes p else []) ++ rest) ->
+  exists steps',
+    run_dec1 (DIf (CHas (M F_flags) WillFlag)
+                  [DWillInit; DGetAny will_map true NoSub; DGet (W F_topicName) Bin;
+                   DGet (M F_willPayload) Bin; DWillPayloadCopy]) (mk_state acc d pos steps) =
+      Run (mk_state (if c then will_block p acc else acc) d
+                    (pos + length (if c then will_bytes p else [])) steps')
+    /\ at_pos d (pos + length (if c then will_bytes p else [])) rest.
+Proof.
+  intros Hw Hm Hups Htopic Hwp Hz HP c Hat. rewrite dif_step.
+  change (eval_cond (CHas (M F_flags) WillFlag) (dp (mk_state acc d pos steps)) (env_of (mk_state acc d pos steps))) with c.
+  destruct c.
+  2:{ exists steps. cbn [length]. rewrite Nat.add_0_r. split; [reflexivity|exact Hat]. }
+  unfold will_bytes in *. cbv zeta in *.
+  set (P := section_bytes will_map true NoSub p) in *.
+  set (a7 := will_init acc).
+  assert (D0 : run_dec1 DWillInit (mk_state acc d pos steps) = Run (mk_state a7 d pos steps)) by reflexivity.
+  rewrite <- !app_assoc in Hat.
+  destruct (dgetany_at will_map true NoSub p a7 d pos
+              (encode Bin (getf (W F_topicName) p) ++ encode Bin (getf (M F_willPayload) p) ++ rest) steps)
+    as [st1 [D1 H1]]; try discriminate; try assumption; try apply will_map_ok; try exact I; try reflexivity.
+  { intros _. exact Hw. }
+  fold P in D1, H1.
+  set (a8 := section_result will_map true NoSub p a7) in *.
+  assert (Hw8 : hasWill a8 = true) by (unfold a8; rewrite hasWill_section_result; reflexivity).
+  destruct (dget_at (W F_topicName) Bin (getf (W F_topicName) p) a8 d (pos + length (enc_vb (len P) ++ P))
+              (encode Bin (getf (M F_willPayload) p) ++ rest) st1) as [D2 H2];
+    try discriminate; try assumption.
+  { intros _. right. unfold a8. rewrite getf_section_other by reflexivity. reflexivity. }
+  set (a9 := setf (W F_topicName) (canon Bin (getf (W F_topicName) p)) a8) in *.
+  destruct (dget_at (M F_willPayload) Bin (getf (M F_willPayload) p) a9 d
+              (pos + length (enc_vb (len P) ++ P) + length (encode Bin (getf (W F_topicName) p)))
+              rest (S st1)) as [D3 H3];
+    try discriminate; try assumption; try exact I.
+  { intros _. right. unfold a9, a8, a7. getf_down. exact Hz. }
+  set (a10 := setf (M F_willPayload) (canon Bin (getf (M F_willPayload) p)) a9) in *.
+  exists (S (S st1)). split.
+  - cbn [run_dec]. rewrite D0, D1, D2, D3. cbn [run_dec1].
+    assert (Hw10 : hasWill (dp (mk_state a10 d (pos + length (enc_vb (len P) ++ P) +
+                     length (encode Bin (getf (W F_topicName) p)) +
+                     length (encode Bin (getf (M F_willPayload) p))) (S (S st1)))) = true).
+    { cbn [dp mk_state]. unfold a10, a9. rewrite !hasWill_setf. exact Hw8. }
+    rewrite Hw10. unfold with_pkt, mk_state. cbn [dp ddata dpos derr dsteps].
+    unfold will_block. cbv zeta. fold a7 a8 a9 a10. do 2 f_equal. rewrite !app_length. lia.
+  - rewrite !app_length. rewrite !app_length in H3. rewrite <- !Nat.add_assoc in *. exact H3.
+Qed.
+
+Definition connect_head : list (fref * wt) :=
+  [(M F_protocolName, Bin); (M F_protocolVersion, U8); (M F_flags, U8); (M F_keepAlive, U16);
+   (M F_clientID, Bin); (M F_username, Bin); (M F_password, Bin)].
+Definition connect_all : list (fref * wt) :=
+  (M F_fixed, U8) :: connect_head ++ refs_of connect_map ++ [(M F_willDelayInterval, U32)].
+Definition will_all : list (fref * wt) :=
+  [(W F_fixed, U8); (W F_topicName, Bin); (W F_packetID, U16); (W F_topicAlias, U16);
+   (W F_payload, Bin); (M F_willPayload, Bin);
+   (W F_payloadFormat, WBool); (W F_messageExpiryInterval, U32); (W F_contentType, Bin);
+   (W F_responseTopic, Bin); (W F_correlationData, Bin)].
+
+Lemma connect_finish p p' :
+  Forall (fun rw => vagree (fst rw) (snd rw) p p') connect_all ->
+  uprops p' = uprops p -> hasWill p' = hasWill p ->
+  has (getN (M F_flags) p) WillFlag = hasWill p ->
+  (hasWill p = true ->
+     Forall (fun rw => vagree (fst rw) (snd rw) p p') will_all /\ wuprops p' = wuprops p /\ wsubids p' = wsubids p) ->
+  snapshot KConnect p' = snapshot KConnect p /\ encs_agree enc_connect p p'.
+Proof.
+  intros Hag Hu Hw Hwf Hwill. split.
+  - apply agree_all_of in Hag. unfold connect_all, connect_head, refs_of, connect_map in Hag.
+    cbn [agree_all getf map app eref ewt fst snd] in Hag. split_ands.
+    unfold snapshot, oN, oB, oS, getN, getB, getS, getf.
+    rewrite Hu, Hw. rewrite_agree p'.
+    destruct (hasWill p) eqn:E; [|reflexivity].
+    destruct (Hwill eq_refl) as [Hag2 [Hwu Hws]].
+    apply agree_all_of in Hag2. unfold will_all in Hag2. cbn [agree_all getf] in Hag2. split_ands.
+    unfold snap_publish, will_pkt, oN, oB, oS, getN, getB, getS, getf. cbn [vals uprops subids].
+    rewrite Hwu, Hws. rewrite_agree p'. reflexivity.
+  - apply vagree_all_of in Hag. unfold connect_all, connect_head, refs_of, connect_map in Hag.
+    cbn [vagree_all map app eref ewt fst snd] in Hag. split_ands.
+    unfold enc_connect, connect_vh, connect_payload, connect_props, will_props, up.
+    cbn [app encs_agree enc_agree live_agree cond_agree eval_cond].
+    rewrite Hwf.
+    repeat match goal with
+    | |- _ /\ _ => split
+    | |- True => exact I
+    | _ => assumption
+    end;
+    match goal with
+    | |- context [if hasWill p then _ else _] =>
+        destruct (hasWill p) eqn:E; [|exact I];
+        destruct (Hwill eq_refl) as [Hag2 [Hwu Hws]];
+        apply vagree_all_of in Hag2; unfold will_all in Hag2; cbn [vagree_all] in Hag2; split_ands;
+        repeat match goal with
+        | |- _ /\ _ => split
+        | |- True => exact I
+        | _ => assumption
+        end
+    | |- context [if ?c then _ else _] => destruct c; repeat split; try assumption; exact I
+    end.
+Qed.
+
+Record will_dom (p : pkt) : Prop := {
+  wd_fields : fields_valid (refs_of will_map) p;
+  wd_ups : Forall up_ok (wuprops p);
+  wd_topic : valid_val Bin (getf (W F_topicName) p);
+  wd_payload : valid_val Bin (getf (M F_willPayload) p);
+  wd_fixed : getN (W F_fixed) p = will_fixed (getN (M F_flags) p);
+  wd_copy : getS (W F_payload) p = getS (M F_willPayload) p;
+  wd_pid : getN (W F_packetID) p = 0;
+  wd_alias : getN (W F_topicAlias) p = 0;
+  wd_subids : wsubids p = []
+}.
+
+Record dom_connect (p : pkt) : Prop := {
+  dco_fixed : getN (M F_fixed) p = ctor_fixed KConnect;
+  dco_head : fields_valid connect_head p;
+  dco_map : fields_valid (refs_of connect_map) p;
+  dco_ups : Forall up_ok (uprops p);
+  dco_user : has (getN (M F_flags) p) UsernameFlag = false -> getS (M F_username) p = [];
+  dco_pass : has (getN (M F_flags) p) PasswordFlag = false -> getS (M F_password) p = [];
+  dco_willflag : has (getN (M F_flags) p) WillFlag = hasWill p;
+  dco_nowill : hasWill p = false -> getN (M F_willDelayInterval) p = 0;
+  dco_will : hasWill p = true -> will_dom p;
+  dco_size : remaining_ok KConnect p
+}.
+
+Theorem connect_roundtrip p : dom_connect p -> roundtrip KConnect p.
+Proof.
+  intros [Hfx Hhead Hm Hups Huser Hpass Hwf Hnowill Hwill Hsize].
+  unfold connect_head in Hhead.
+  assert (Hv : valid_val Bin (getf (M F_protocolName) p) /\ valid_val U8 (getf (M F_protocolVersion) p)
+               /\ valid_val U8 (getf (M F_flags) p) /\ valid_val U16 (getf (M F_keepAlive) p)
+               /\ valid_val Bin (getf (M F_clientID) p) /\ valid_val Bin (getf (M F_username) p)
+               /\ valid_val Bin (getf (M F_password) p)).
+  { unfold fields_valid in Hhead.
+    repeat match goal with H : Forall _ (_ :: _) |- _ => inversion_clear H end. cbn [fst snd] in *.
+    repeat split; assumption. }
+  destruct Hv as [Hname [Hver [Hfl [Hka [Hcid [Husr Hpw]]]]]]. clear Hhead.
+  assert (Hok : Forall (entry_ok p) connect_map)
+    by (apply (entries_ok false); [apply connect_map_ok|discriminate|exact Hm]).
+  set (P1 := section_bytes connect_map false NoSub p).
+  assert (EP1 : run_enc connect_props p = Some P1)
+    by (apply (run_enc_section connect_map false NoSub p Hok); discriminate).
+  set (fl := getN (M F_flags) p) in *.
+  set (cw := has fl WillFlag) in *. set (cu := has fl UsernameFlag) in *. set (cp := has fl PasswordFlag) in *.
+  set (name := getf (M F_protocolName) p) in *. set (ver := getf (M F_protocolVersion) p) in *.
+  set (flv := getf (M F_flags) p) in *. set (ka := getf (M F_keepAlive) p) in *.
+  set (cid := getf (M F_clientID) p) in *. set (usr := getf (M F_username) p) in *.
+  set (pw := getf (M F_password) p) in *.
+  set (WILL := if cw then will_bytes p else []).
+  set (USER := if cu then encode Bin usr else []).
+  set (PASS := if cp then encode Bin pw else []).
+  set (body := encode Bin name ++ encode U8 ver ++ encode U8 flv ++ encode U16 ka ++ enc_vb (len P1) ++ P1
+               ++ encode Bin cid ++ WILL ++ USER ++ PASS).
+  (* encoder *)
+  assert (Evh : run_enc (connect_vh ++ connect_payload) p = Some body).
+  { unfold connect_vh, connect_payload. rewrite <- app_assoc.
+    change (?a :: ?b :: ?e :: ?f :: ?g :: ?c ++ ?d) with ([a; b; e; f; g] ++ c ++ d).
+    rewrite !run_enc_app, EP1. cbn [run_enc]. rewrite run_enc1_vblen, EP1, !run_enc1_if.
+    cbn [eval_cond]. fold fl cw cu cp.
+    assert (E1 : (if cw then run_enc ([EVbLen will_props] ++ will_props ++
+                                      [EFill (W F_topicName) Bin; EFill (M F_willPayload) Bin]) p
+                  else run_enc [] p) = Some WILL).
+    { unfold WILL. destruct cw eqn:Ecw; [|reflexivity].
+      assert (Hw : hasWill p = true) by (rewrite <- Hwf; reflexivity).
+      destruct (Hwill Hw) as [Hwm _ _ _ _ _ _ _ _].
+      assert (Hok2 : Forall (entry_ok p) will_map)
+        by (apply (entries_ok true); [apply will_map_ok|intros _; exact Hw|exact Hwm]).
+      assert (EP2 : run_enc will_props p = Some (section_bytes will_map true NoSub p))
+        by (apply (run_enc_section will_map true NoSub p Hok2); intros _; exact Hw).
+      rewrite !run_enc_app, EP2. cbn [run_enc]. rewrite run_enc1_vblen, EP2.
+      cbn [run_enc1 getf_opt option_map opt_app]. rewrite Hw. cbn [option_map opt_app].
+      unfold will_bytes. cbv zeta. rewrite ?app_nil_r, <- ?app_assoc. reflexivity. }
+    rewrite E1.
+    assert (E2 : (if cu then run_enc [EFill (M F_username) Bin] p else run_enc [] p) = Some USER).
+    { unfold USER. destruct cu; cbn [run_enc run_enc1 getf_opt option_map opt_app]; rewrite ?app_nil_r; reflexivity. }
+    assert (E3 : (if cp then run_enc [EFill (M F_password) Bin] p else run_enc [] p) = Some PASS).
+    { unfold PASS. destruct cp; cbn [run_enc run_enc1 getf_opt option_map opt_app]; rewrite ?app_nil_r; reflexivity. }
+    rewrite E2, E3. cbn [run_enc1 getf_opt option_map opt_app]. unfold body.
+    rewrite ?app_nil_r, <- ?app_assoc. reflexivity. }
+  assert (HP1 : len P1 < 268435456).
+  { unfold remaining_ok in Hsize. cbn [body_of] in Hsize. rewrite Evh in Hsize. unfold body in Hsize.
+    rewrite !len_app in Hsize. lia. }
+  assert (HP2 : cw = true -> len (section_bytes will_map true NoSub p) < 268435456).
+  { intros Ecw. unfold remaining_ok in Hsize. cbn [body_of] in Hsize. rewrite Evh in Hsize.
+    unfold body, WILL, will_bytes in Hsize. rewrite Ecw in Hsize. cbv zeta in Hsize.
+    rewrite !len_app in Hsize. lia. }
+  (* decoder *)
+  set (fresh := setf (M F_fixed) (VN (ctor_fixed KConnect)) zero_pkt).
+  assert (Hfresh : fresh_pkt (b2n (n2b (getN (M F_fixed) p))) = (KConnect, fresh))
+    by (rewrite Hfx; reflexivity).
+  set (a1 := setf (M F_protocolName) (canon Bin name) fresh).
+  set (a2 := setf (M F_protocolVersion) (canon U8 ver) a1).
+  set (a3 := setf (M F_flags) (canon U8 flv) a2).
+  set (a4 := setf (M F_keepAlive) (canon U16 ka) a3).
+  destruct (dget_at (M F_protocolName) Bin name fresh body 0
+              (encode U8 ver ++ encode U8 flv ++ encode U16 ka ++ enc_vb (len P1) ++ P1
+               ++ encode Bin cid ++ WILL ++ USER ++ PASS) 0)
+    as [D1 H1]; try discriminate; try assumption; try exact I.
+  { intros _. right. reflexivity. }
+  { apply at_pos_0. }
+  fold a1 in D1.
+  destruct (dget_at (M F_protocolVersion) U8 ver a1 body (0 + length (encode Bin name))
+              (encode U8 flv ++ encode U16 ka ++ enc_vb (len P1) ++ P1
+               ++ encode Bin cid ++ WILL ++ USER ++ PASS) 1)
+    as [D2 H2]; try discriminate; try assumption; try exact I.
+  fold a2 in D2.
+  destruct (dget_at (M F_flags) U8 flv a2 body (0 + length (encode Bin name) + length (encode U8 ver))
+              (encode U16 ka ++ enc_vb (len P1) ++ P1 ++ encode Bin cid ++ WILL ++ USER ++ PASS) 2)
+    as [D3 H3]; try discriminate; try assumption; try exact I.
+  fold a3 in D3.
+  destruct (dget_at (M F_keepAlive) U16 ka a3 body
+              (0 + length (encode Bin name) + length (encode U8 ver) + length (encode U8 flv))
+              (enc_vb (len P1) ++ P1 ++ encode Bin cid ++ WILL ++ USER ++ PASS) 3)
+    as [D4 H4]; try discriminate; try assumption; try exact I.
+  fold a4 in D4.
+  set (pos4 := (0 + length (encode Bin name) + length (encode U8 ver) + length (encode U8 flv)
+                + length (encode U16 ka))%nat) in *.
+  destruct (dgetany_at connect_map false NoSub p a4 body pos4 (encode Bin cid ++ WILL ++ USER ++ PASS) 4)
+    as [st5 [D5 H5]]; try discriminate; try assumption; try apply connect_map_ok; try exact I.
+  fold P1 in D5, H5.
+  set (a5 := section_result connect_map false NoSub p a4) in *.
+  set (pos5 := (pos4 + length (enc_vb (len P1) ++ P1))%nat) in *.
+  destruct (dget_at (M F_clientID) Bin cid a5 body pos5 (WILL ++ USER ++ PASS) st5)
+    as [D6 H6]; try discriminate; try assumption; try exact I.
+  { intros _. right. unfold a5. getf_down. reflexivity. }
+  set (a6 := setf (M F_clientID) (canon Bin cid) a5) in *.
+  set (pos6 := (pos5 + length (encode Bin cid))%nat) in *.
+  assert (Hfl6 : getN (M F_flags) a6 = fl).
+  { unfold getN, a6, a5. getf_down. unfold a4. getf_down. unfold a3. getf_down. reflexivity. }
+  assert (Hw6 : cw = true -> hasWill p = true) by (intros E; rewrite <- Hwf; exact E).
+  (* the will *)
+  assert (D7 : exists st7,
+    run_dec1 (DIf (CHas (M F_flags) WillFlag)
+                  [DWillInit; DGetAny will_map true NoSub; DGet (W F_topicName) Bin;
+                   DGet (M F_willPayload) Bin; DWillPayloadCopy]) (mk_state a6 body pos6 (S st5)) =
+      Run (mk_state (if cw then will_block p a6 else a6) body (pos6 + length WILL) st7)
+    /\ at_pos body (pos6 + length WILL) (USER ++ PASS)).
+  { destruct cw eqn:Ecw.
+    - destruct (Hwill (Hw6 eq_refl)) as [Hwm Hwu Hwt Hwp _ _ _ _ _].
+      destruct (dif_will_at p a6 body pos6 (USER ++ PASS) (S st5) (Hw6 eq_refl) Hwm Hwu Hwt Hwp) as [st7 [D H]].
+      + unfold a6, a5. getf_down. reflexivity.
+      + apply HP2. reflexivity.
+      + rewrite Hfl6. fold cw. rewrite Ecw. exact H6.
+      + rewrite Hfl6 in D, H. fold cw in D, H. rewrite Ecw in D, H. exists st7. split; assumption.
+    - exists (S st5). unfold WILL in *. cbn [length]. rewrite Nat.add_0_r. split; [|exact H6].
+      rewrite dif_step.
+      change (eval_cond (CHas (M F_flags) WillFlag) (dp (mk_state a6 body pos6 (S st5)))
+                        (env_of (mk_state a6 body pos6 (S st5)))) with (has (getN (M F_flags) a6) WillFlag).
+      rewrite Hfl6. fold cw. rewrite Ecw. reflexivity. }
+  destruct D7 as [st7 [D7 H7]].
+  set (aw := if cw then will_block p a6 else a6) in *.
+  set (pos7 := (pos6 + length WILL)%nat) in *.
+  assert (Hflw : getN (M F_flags) aw = fl).
+  { unfold aw. destruct cw; [|exact Hfl6]. unfold getN, will_block. cbv zeta. getf_down. exact Hfl6. }
+  assert (Hliveall : forall a r, match r with M _ => True | W _ => False end -> ref_live a r)
+    by (intros a [f|f] H; [exact I|contradiction]).
+  destruct (dif_bin_at UsernameFlag (M F_username) usr aw body pos7 PASS st7 Husr I) as [st8 [D8 H8]].
+  { unfold aw. destruct cw.
+    - unfold will_block. cbv zeta. getf_down. unfold a6, a5. getf_down. reflexivity.
+    - unfold a6, a5. getf_down. reflexivity. }
+  { rewrite Hflw. exact H7. }
+  rewrite Hflw in D8, H8. fold cu USER in D8, H8.
+  set (au := if cu then setf (M F_username) (canon Bin usr) aw else aw) in *.
+  set (pos8 := (pos7 + length USER)%nat) in *.
+  assert (Hflu : getN (M F_flags) au = fl).
+  { unfold au. destruct cu; [|exact Hflw]. unfold getN. getf_down. exact Hflw. }
+  destruct (dif_bin_at PasswordFlag (M F_password) pw au body pos8 [] st8 Hpw I) as [st9 [D9 H9]].
+  { unfold au. destruct cu; getf_down; unfold aw; destruct cw;
+      try (unfold will_block; cbv zeta; getf_down); unfold a6, a5; getf_down; reflexivity. }
+  { rewrite Hflu, app_nil_r. exact H8. }
+  rewrite Hflu in D9, H9. fold cp PASS in D9, H9.
+  set (p' := if cp then setf (M F_password) (canon Bin pw) au else au) in *.
+  assert (Hdec : unmarshal KConnect fresh body = UOk p').
+  { eapply unmarshal_of_run. cbn [dec_of]. unfold dec_connect.
+    rewrite (run_dec_cons _ _ _ _ D1), (run_dec_cons _ _ _ _ D2), (run_dec_cons _ _ _ _ D3),
+            (run_dec_cons _ _ _ _ D4), (run_dec_cons _ _ _ _ D5), (run_dec_cons _ _ _ _ D6),
+            (run_dec_cons _ _ _ _ D7), (run_dec_cons _ _ _ _ D8), (run_dec_cons _ _ _ _ D9). reflexivity. }
+  (* what the later steps leave alone *)
+  assert (Efix : canon U8 (getf (M F_fixed) fresh) = canon U8 (getf (M F_fixed) p)).
+  { cbn [canon]. fold (getN (M F_fixed) p). rewrite Hfx. reflexivity. }
+  assert (Ha4 : forallb (fun e => is_zero (ewt e) (getf (eref e) a4)) connect_map = true)
+    by (vm_compute; reflexivity).
+  assert (Hag6 : Forall (fun rw => vagree (fst rw) (snd rw) p a6)
+            ((M F_fixed, U8) :: (M F_protocolName, Bin) :: (M F_protocolVersion, U8) :: (M F_flags, U8)
+             :: (M F_keepAlive, U16) :: (M F_clientID, Bin) :: refs_of connect_map)).
+  { repeat (apply Forall_cons; [unfold vagree; cbn [fst snd]; unfold a6, a5; getf_down;
+                                first [exact Efix | apply canon_idem]|]).
+    apply Forall_forall. intros rw Hin. unfold vagree.
+    assert (E : getf (fst rw) a6 = getf (fst rw) a5).
+    { unfold a6. apply getf_setf_other. unfold refs_of, connect_map in Hin.
+      cbn [map In eref ewt fst snd] in Hin. repeat (destruct Hin as [<-|Hin]; [reflexivity|]). contradiction. }
+    rewrite E. pose proof (section_agree_in connect_map false NoSub p a4 (proj2 (proj2 connect_map_ok)) Ha4) as G.
+    rewrite Forall_forall in G. exact (G rw Hin). }
+  assert (T : Forall (fun r => getf r p' = getf r a6)
+            ([M F_fixed; M F_protocolName; M F_protocolVersion; M F_flags; M F_keepAlive; M F_clientID]
+             ++ map fst (refs_of connect_map))).
+  { unfold refs_of, connect_map. cbn [map app eref ewt fst snd].
+    repeat (apply Forall_cons; [unfold p', au, aw; destruct cp, cu, cw;
+                                try (unfold will_block; cbv zeta); getf_down; reflexivity|]).
+    apply Forall_nil. }
+  assert (Hag_a : Forall (fun rw => vagree (fst rw) (snd rw) p p')
+            ((M F_fixed, U8) :: (M F_protocolName, Bin) :: (M F_protocolVersion, U8) :: (M F_flags, U8)
+             :: (M F_keepAlive, U16) :: (M F_clientID, Bin) :: refs_of connect_map)).
+  { apply Forall_forall. intros rw Hin. rewrite Forall_forall in Hag6, T.
+    unfold vagree. rewrite (T (fst rw)); [exact (Hag6 rw Hin)|].
+    change (In (fst rw) (map fst ((M F_fixed, U8) :: (M F_protocolName, Bin) :: (M F_protocolVersion, U8)
+              :: (M F_flags, U8) :: (M F_keepAlive, U16) :: (M F_clientID, Bin) :: refs_of connect_map))).
+    apply in_map. exact Hin. }
+  (* user name and password *)
+  assert (Hz_user : valS (getf (M F_username) aw) = []).
+  { unfold aw. destruct cw; try (unfold will_block; cbv zeta); getf_down; unfold a6, a5; getf_down; reflexivity. }
+  assert (Hag_user : vagree (M F_username) Bin p p').
+  { unfold vagree. assert (E : getf (M F_username) p' = getf (M F_username) au)
+      by (unfold p'; destruct cp; getf_down; reflexivity).
+    rewrite E. unfold au. destruct cu eqn:Ecu.
+    - getf_down. apply canon_idem.
+    - cbn [canon]. rewrite Hz_user. fold usr. change (valS usr) with (getS (M F_username) p).
+      rewrite (Huser eq_refl). reflexivity. }
+  assert (Hz_pass : valS (getf (M F_password) au) = []).
+  { unfold au. destruct cu; getf_down; unfold aw; destruct cw;
+      try (unfold will_block; cbv zeta); getf_down; unfold a6, a5; getf_down; reflexivity. }
+  assert (Hag_pass : vagree (M F_password) Bin p p').
+  { unfold vagree, p'. destruct cp eqn:Ecp.
+    - getf_down. apply canon_idem.
+    - cbn [canon]. rewrite Hz_pass. change (valS (getf (M F_password) p)) with (getS (M F_password) p).
+      rewrite (Hpass eq_refl). reflexivity. }
+  (* lists *)
+  assert (Hu6 : uprops a6 = uprops p).
+  { unfold a6. rewrite uprops_setf. unfold a5. rewrite uprops_section_result. reflexivity. }
+  assert (Huw : uprops aw = uprops p).
+  { unfold aw. destruct cw; [|exact Hu6]. unfold will_block. cbv zeta.
+    rewrite !uprops_setf, uprops_section_result. exact Hu6. }
+  assert (Hu : uprops p' = uprops p).
+  { unfold p', au. destruct cp, cu; rewrite ?uprops_setf; exact Huw. }
+  assert (Hw6' : hasWill a6 = false).
+  { unfold a6. rewrite hasWill_setf. unfold a5. rewrite hasWill_section_result. reflexivity. }
+  assert (Hww : hasWill aw = cw).
+  { unfold aw. destruct cw; [|exact Hw6']. unfold will_block. cbv zeta.
+    rewrite !hasWill_setf, hasWill_section_result. reflexivity. }
+  assert (Hhw : hasWill p' = hasWill p).
+  { rewrite <- Hwf. fold fl cw. unfold p', au. destruct cp, cu; rewrite ?hasWill_setf; exact Hww. }
+  (* will delay interval and the will *)
+  assert (Hz7 : forallb (fun e => is_zero (ewt e) (getf (eref e) (will_init a6))) will_map = true).
+  { apply forallb_forall. intros e Hin. unfold will_map in Hin. cbn [In] in Hin.
+    destruct Hin as [<-|Hin].
+    { cbn [eref ewt fst snd]. rewrite getf_will_init_M. unfold a6, a5. getf_down. reflexivity. }
+    repeat (destruct Hin as [<-|Hin]; [reflexivity|]). contradiction. }
+  assert (Hthru_w : forall f, getf (W f) p' = getf (W f) aw).
+  { intros f. unfold p', au. destruct cp, cu; reflexivity. }
+  assert (Hag_delay : vagree (M F_willDelayInterval) U32 p p').
+  { unfold vagree.
+    assert (E : getf (M F_willDelayInterval) p' = getf (M F_willDelayInterval) aw)
+      by (unfold p', au; destruct cp, cu; getf_down; reflexivity).
+    rewrite E. unfold aw. destruct cw eqn:Ecw.
+    - unfold will_block. cbv zeta. getf_down. rewrite getf_section_result.
+      apply (restore_agree_ref will_map p (will_init a6)); [apply will_map_ok|exact Hz7|].
+      left. reflexivity.
+    - assert (E0 : getf (M F_willDelayInterval) a6 = VN 0) by (unfold a6, a5; getf_down; reflexivity).
+      rewrite E0. cbn [canon]. fold (getN (M F_willDelayInterval) p).
+      rewrite Hnowill; [reflexivity|symmetry; exact Hwf]. }
+  assert (Hwillpart : hasWill p = true ->
+     Forall (fun rw => vagree (fst rw) (snd rw) p p') will_all /\ wuprops p' = wuprops p /\ wsubids p' = wsubids p).
+  { intros Hw. assert (Ecw : cw = true) by (rewrite Hwf; exact Hw).
+    destruct (Hwill Hw) as [Hwm Hwu Hwt Hwp Hwfx Hwcopy Hwpid Hwalias Hwsub].
+    assert (Eaw : aw = will_block p a6) by (unfold aw; rewrite Ecw; reflexivity).
+    assert (Hin_w : forall r w, In (r, w) (refs_of will_map) ->
+                    canon w (getf r (section_result will_map true NoSub p (will_init a6))) = canon w (getf r p)).
+    { intros r w Hin. rewrite getf_section_result.
+      apply (restore_agree_ref will_map p (will_init a6)); [apply will_map_ok|exact Hz7|exact Hin]. }
+    split; [|split].
+    - unfold will_all.
+      repeat (apply Forall_cons; [unfold vagree; cbn [fst snd]|]); [..|apply Forall_nil].
+      + rewrite Hthru_w, Eaw. unfold will_block. cbv zeta. getf_down. rewrite getf_will_init_W.
+        rewrite Hfl6. cbn [canon]. fold (getN (W F_fixed) p). rewrite Hwfx. reflexivity.
+      + rewrite Hthru_w, Eaw. unfold will_block. cbv zeta. getf_down. apply canon_idem.
+      + rewrite Hthru_w, Eaw. unfold will_block. cbv zeta. getf_down. rewrite getf_will_init_W.
+        cbn [canon]. fold (getN (W F_packetID) p). rewrite Hwpid. reflexivity.
+      + rewrite Hthru_w, Eaw. unfold will_block. cbv zeta. getf_down. rewrite getf_will_init_W.
+        cbn [canon]. fold (getN (W F_topicAlias) p). rewrite Hwalias. reflexivity.
+      + rewrite Hthru_w, Eaw. unfold will_block. cbv zeta. getf_down. unfold getS. getf_down.
+        cbn [canon valS]. fold (getS (W F_payload) p). rewrite Hwcopy. reflexivity.
+      + assert (E : getf (M F_willPayload) p' = getf (M F_willPayload) aw)
+          by (unfold p', au; destruct cp, cu; getf_down; reflexivity).
+        rewrite E, Eaw. unfold will_block. cbv zeta. getf_down. apply canon_idem.
+      + rewrite Hthru_w, Eaw. unfold will_block. cbv zeta. getf_down. apply Hin_w. cbn. tauto.
+      + rewrite Hthru_w, Eaw. unfold will_block. cbv zeta. getf_down. apply Hin_w. cbn. tauto.
+      + rewrite Hthru_w, Eaw. unfold will_block. cbv zeta. getf_down. apply Hin_w. cbn. tauto.
+      + rewrite Hthru_w, Eaw. unfold will_block. cbv zeta. getf_down. apply Hin_w. cbn. tauto.
+      + rewrite Hthru_w, Eaw. unfold will_block. cbv zeta. getf_down. apply Hin_w. cbn. tauto.
+    - assert (E : wuprops p' = wuprops aw) by (unfold p', au; destruct cp, cu; rewrite ?wuprops_setf; reflexivity).
+      rewrite E, Eaw. unfold will_block. cbv zeta. rewrite !wuprops_setf, wuprops_section_result. reflexivity.
+    - assert (E : wsubids p' = wsubids aw) by (unfold p', au; destruct cp, cu; rewrite ?wsubids_setf; reflexivity).
+      rewrite E, Eaw, Hwsub. unfold will_block. cbv zeta. rewrite !wsubids_setf.
+      destruct (others_section_result will_map true NoSub p (will_init a6)) as [E1 _]. rewrite E1. reflexivity. }
+  assert (Hag : Forall (fun rw => vagree (fst rw) (snd rw) p p') connect_all).
+  { unfold connect_all, connect_head. cbn [app].
+    inversion Hag_a as [|? ? G0 G]; subst. inversion G as [|? ? G1 G']; subst. inversion G' as [|? ? G2 G'']; subst.
+    inversion G'' as [|? ? G3 G3']; subst. inversion G3' as [|? ? G4 G4']; subst. inversion G4' as [|? ? G5 G6]; subst.
+    repeat (apply Forall_cons; [assumption|]).
+    apply Forall_app. split; [exact G6|]. apply Forall_cons; [exact Hag_delay|apply Forall_nil]. }
+  destruct (connect_finish p p' Hag Hu Hhw Hwf Hwillpart) as [Hs Ha].
+  clearbody p'.
+  apply (roundtrip_intro KConnect p (connect_vh ++ connect_payload) body fresh p');
+    try discriminate; try assumption; try reflexivity.
+  intros es Hes. injection Hes as <-. exact Ha.
+Qed.
+
+(* ------------------------------------------------------------------ *)
+(* All fifteen packet types. *)
+Definition dom (k : kind) (p : pkt) : Prop :=
+  match k with
+  | KUndefined => False
+  | KConnect => dom_connect p
+  | KConnAck => dom_connack p
+  | KPublish => dom_publish p
+  | KPubAck | KPubRec | KPubRel | KPubComp => dom_ack k p
+  | KSubscribe => dom_subscribe p
+  | KSubAck | KUnsubAck => dom_suback k p
+  | KUnsubscribe => dom_unsubscribe p
+  | KPingReq | KPingResp => getN (M F_fixed) p = ctor_fixed k
+  | KDisconnect => dom_disconnect p
+  | KAuth => dom_auth p
+  end.
+
+Theorem roundtrip_all k p : dom k p -> roundtrip k p.
+Proof.
+  destruct k; cbn [dom]; intros H.
+  - contradiction.
+  - apply connect_roundtrip; exact H.
+  - apply connack_roundtrip; exact H.
+  - apply publish_roundtrip; exact H.
+  - apply ack_roundtrip; [reflexivity|exact H].
+  - apply ack_roundtrip; [reflexivity|exact H].
+  - apply ack_roundtrip; [reflexivity|exact H].
+  - apply ack_roundtrip; [reflexivity|exact H].
+  - apply subscribe_roundtrip; exact H.
+  - apply suback_roundtrip; [reflexivity|exact H].
+  - apply unsubscribe_roundtrip; exact H.
+  - apply suback_roundtrip; [reflexivity|exact H].
+  - apply ping_roundtrip; [left; reflexivity|exact H].
+  - apply ping_roundtrip; [right; reflexivity|exact H].
+  - apply disconnect_roundtrip; exact H.
+  - apply auth_roundtrip; exact H.
 Qed.
